@@ -1089,7 +1089,12 @@ class ConditionalRelation(RelationProtocol, SimpleRepr):
             else:
                 sliced_rel = self._relation_if_true
 
-            return ConditionalRelation(sliced_cond, sliced_rel)
+            return ConditionalRelation(
+                sliced_cond,
+                sliced_rel,
+                name=self.name,
+                return_neutral=self._return_neutral,
+            )
 
     def get_value_for_assignment(self, assignment):
 
